@@ -433,7 +433,9 @@ def explains : Viol → RErr → Bool
       -- at the holder itself, or DOWNSTREAM at a use site (parse_response / handler / IntoResponse bodies) that needs the same bound
       (codeIn e.code ["E0277"] && e.name == tgt && e.trait == (if ser then "Serialize".toList else "Deserialize".toList) &&
         (e.iname == it || e.ikind == "impl".toList || e.ikind == "fn".toList)) ||
-      (ser && codeIn e.code ["E0599"] && e.ikind == "impl".toList && e.iname == it && e.name == "into_response".toList)
+      (ser && codeIn e.code ["E0599"] && e.ikind == "impl".toList && e.iname == it && e.name == "into_response".toList) ||
+      -- client: `<EventStream<T>>::from_response(req)` needs `T: DeserializeOwned` (reported as unsatisfied bounds of the method)
+      (!ser && codeIn e.code ["E0599"] && e.ikind == "impl".toList && e.name == tgt && e.trait == "from_response".toList)
   | .lengthNeedsSer it tgt, e => codeIn e.code ["E0277"] && e.iname == it && e.name == tgt && e.trait == "Serialize".toList
   | .nestedNoValidate it tgt, e => codeIn e.code ["E0277", "E0599"] && e.iname == it && e.name == tgt
   | .dupParam it, e => e.ikind == "impl".toList && e.iname == it && codeIn e.code ["E0308", "E0428", "E0415", "E0201", "E0119", "E0592", "E0382", "E0124"]
